@@ -135,3 +135,50 @@ package dotgit
 //gvc:  sink Write requires checked: f.#checked
 //gvc:  sink Unlock requires never: false
 //gvc:end
+
+// Property C18 (an object is visible once its write has returned), the
+// ExclusiveAccess object list: the list DotGit caches is dropped when a loose
+// object reaches its permanent place, not only when its writer is created.
+// #announced counts how often a writer told its owner "the object is saved".
+//gvc:ghost ObjectWriter.announced nat
+
+// The function stored in ObjectWriter.saved (DotGit.cleanObjectList, installed
+// by NewObject) is what drops the cached list; calling it is the announcement.
+//gvc:func field:ObjectWriter.saved
+//gvc:  props C18
+//gvc:  modifies holder.#announced
+//gvc:  ensures holder.#announced == old(holder.#announced) + 1
+//gvc:end
+
+// Close: a successful Close of a writer with an owner announces the object
+// exactly once, after save() succeeded; a failed Close announces nothing.
+//gvc:func (*ObjectWriter).Close
+//gvc:  props C18
+//gvc:  theory int
+//gvc:  opt coarse
+//gvc:  opt frame args
+//gvc:  requires nn: w != nil
+//gvc:  modifies w.#announced
+//gvc:  ensures told: result == nil && w.saved != nil ==> w.#announced == old(w.#announced) + 1
+//gvc:  ensures quiet: result != nil ==> w.#announced == old(w.#announced)
+//gvc:end
+
+// NewObject: the writer it returns has its owner's hook installed, and the
+// list is dropped at creation as before.
+//gvc:func (*DotGit).NewObject
+//gvc:  props C18
+//gvc:  theory int
+//gvc:  opt coarse
+//gvc:  opt frame args
+//gvc:  results w err
+//gvc:  requires nn: d != nil
+//gvc:  ensures hooked: err == nil ==> w != nil && w.saved != nil
+//gvc:end
+
+//gvc:func (*DotGit).cleanObjectList
+//gvc:  props C18
+//gvc:  theory int
+//gvc:  requires nn: d != nil
+//gvc:  modifies d.objectMap, d.objectList
+//gvc:  ensures dropped: d.objectMap == nil && len(d.objectList) == 0
+//gvc:end
